@@ -561,8 +561,9 @@ class ElementList(MutableSequence):
         del self.list[index]
 
     def __setitem__(self, index, value):
-        child_name = self.list[index].name
-        self.set(child_name, value, index)
+        child = self.list[index]
+        # set() addresses a child by its name and by its position among the children of that name
+        self.set(child.name, value, self.indexes[child.name].index(child))
 
     def __str__(self):
         return str(self.list)
